@@ -763,6 +763,13 @@ class RealWorld(object):
             probe = ArraySpectrum(np.stack(cols, axis=1))
             self.bin_lo = probe.wavenumberGrid - probe.binWidths / 2                  # the bins the observation reports
             self.bin_hi = probe.wavenumberGrid + probe.binWidths / 2
+            if attempt != '3col':
+                # with a width column the bins are GIVEN: the oracle takes them from the rows themselves (centre
+                # 10000/wl, width 10000 dwl / wl^2, each row keeping its own width), not from the loaded object
+                o = np.argsort(10000.0 / np.asarray(wl, dtype=float))
+                cen = (10000.0 / np.asarray(wl, dtype=float))[o]
+                wid = (10000.0 * np.asarray(wlw, dtype=float) / np.asarray(wl, dtype=float) ** 2)[o]
+                self.bin_lo, self.bin_hi = cen - wid / 2, cen + wid / 2
             # the licence of spec/LikeGrid.tla: every bin 1.5 native spacings inside the clip window of the code
             # (and well inside the native grid: the bins a 3-column observation derives next to a gap can be very broad)
             if attempt == '4col' or (fn.inside_window(self.full_native, self.bin_lo, self.bin_hi, probe.wavenumberGrid) and
@@ -799,6 +806,8 @@ class RealWorld(object):
             self.d0 = [int(round(float(v) / self.DUNIT)) for v in data]
             data = np.array(self.d0, dtype=float) * self.DUNIT
         arr = np.stack([raw[:, 0], data, err] + ([raw[:, 3]] if raw.shape[1] == 4 else []), axis=1)
+        # the rows of the observation file come in any order, each row keeping its own value, error bar and width
+        arr = arr[rng.sample(range(nb), nb)]
         mk = fo.offset_scale_spectrum_class() if self.obspar else ArraySpectrum
         self.obs = mk(arr.copy())
         self.twin_obs = mk(arr.copy())
